@@ -9,6 +9,7 @@ import torch.nn as nn
 
 SMP = {'sample_alpha_sm': 0, 'sample_alpha_gs': 1, 'sample_alpha_none': 2}
 SMP_NAME = {0: 'Sm', 1: 'Gs', 2: 'NoSamp'}
+OBS_ID = {'export': 0, 'export_nobn': 1, 'summary': 2, 'cost': 3, 'str': 4}
 SW_ID = {'train_net_only': 0, 'train_nas_only': 1, 'train_net_and_nas': 2, 'train_features': 3, 'train_rf': 4, 'train_dilation': 5, 'train_selection': 6}
 
 
@@ -227,6 +228,8 @@ class Runner:
         self.noise = 0
         self.mops = []          # model ops (python tuples)
         self.views = []
+        self.key_changes = []
+        self.obs_exc = []
 
     def x(self, k):
         g = torch.Generator().manual_seed(7000 + 13 * self.cfg['seed'] + k)
@@ -277,6 +280,28 @@ class Runner:
             W.eval(); self.snap(('eval',))
         elif k == 'disc':
             W.discrete_cost = op[1]; self.snap(('disc', op[1]))
+        elif k == 'obs':     # observer calls inside the history, with their non-default options; never replayed after the restart
+            before = sorted(W.state_dict().keys())
+            try:
+                if op[1] == 'export':
+                    W.export()
+                elif op[1] == 'export_nobn':
+                    W.export(add_bn=False)
+                elif op[1] == 'summary':
+                    W.summary()
+                elif op[1] == 'cost':
+                    [W.get_cost(n) for n in W.cost_specification]
+                else:
+                    str(W)
+                exc = None
+            except Exception as ex:
+                exc = 'EXC:' + type(ex).__name__
+            after = sorted(W.state_dict().keys())
+            if before != after:
+                self.key_changes.append({'observer': op[1], 'lost': sorted(set(before) - set(after))[:6], 'gained': sorted(set(after) - set(before))[:6]})
+            if exc:
+                self.obs_exc.append((op[1], exc))
+            self.snap(('obs', OBS_ID[op[1]]))
         elif k == 'sw':      # trainability switches: they write requires_grad only; never replayed on the restored wrapper
             name, b = op[1], op[2]
             if name in ('train_net_only', 'train_nas_only', 'train_net_and_nas'):
@@ -438,6 +463,7 @@ def run_case(case):
         R.apply(op)
     W = R.W
     res['mops'], res['views'] = R.mops, R.views
+    res['key_changes'], res['obs_exc'] = R.key_changes, R.obs_exc
     res['changed'] = changed_options(W, R.st, cfg)
     sd = copy.deepcopy(W.state_dict())
     res['ckpt_keys'] = sorted(sd.keys())
